@@ -188,6 +188,7 @@ func (e *Engine) modelCall(s *State, fr *Frame, dst *ssa.Call, key string, f *ss
 		return Eq(App("str.tolower", SString, args[0].(Term)), App("str.tolower", SString, args[1].(Term))), nil, true, false
 	case "sync.Mutex.Lock", "sync.RWMutex.Lock", "sync.RWMutex.RLock":
 		e.lockOp(s, fr, args[0], true, site)
+		e.lockHavoc(s, args[0], "lock")
 		return nil, nil, true, false
 	case "sync.Mutex.Unlock", "sync.RWMutex.Unlock", "sync.RWMutex.RUnlock":
 		e.lockOp(s, fr, args[0], false, site)
@@ -215,6 +216,24 @@ func (e *Engine) modelCall(s *State, fr *Frame, dst *ssa.Call, key string, f *ss
 		return nil, nil, false, false
 	case "golang.org/x/sync/errgroup.Group.Wait":
 		return s.fresh("groupwait", f.Signature.Results().At(0).Type()), nil, true, false
+	case "strconv.FormatInt":
+		// opt-in (root flag exact_format_int): strconv.FormatInt(x, 10) is the decimal numeral of x
+		if e.rootContract == nil || e.rootContract.Flags["exact_format_int"] == "" {
+			return nil, nil, false, false
+		}
+		if b, ok := args[1].(Term); ok {
+			if n, ok := litValue(b); ok && n.IsInt64() && n.Int64() == 10 {
+				e.trustModel("strconv.FormatInt(x, 10) as the SMT decimal numeral of x (str.from_int, with a leading '-' for negative x)")
+				return decimalOf(args[0].(Term)), nil, true, false
+			}
+		}
+		return nil, nil, false, false
+	case "sync.Cond.Wait":
+		if mu, _ := e.lockHavocSpec(); mu == "" {
+			return nil, nil, false, false
+		}
+		e.condWaitHavoc(s, args[0])
+		return nil, nil, true, false
 	case "sync.Cond.Broadcast", "sync.Cond.Signal", "sync.WaitGroup.Add", "sync.WaitGroup.Done", "sync.WaitGroup.Wait",
 		"golang.org/x/sync/semaphore.Weighted.Release", "sync.Once.Do":
 		if key == "sync.Once.Do" {
